@@ -112,21 +112,21 @@ theorem lift_len_write' {α} (X : Ctx) (g : GM α) (s : St) (n : Nat) (res : Exc
   rw [lift_run, hg]
   simp [replay, replay1, withHdr, hsOf]
 
+/-- what the regenerated prefix of `truncate` does. Stated so that it holds for both ways of writing the tail of the
+    function: `if !needs_drop::<T>() { return; } <drop the tail>` (the prefix then answers `ret 1` for element types
+    without drop glue) and `if needs_drop::<T>() { <drop the tail> }` (the prefix always hands over to the pointer code,
+    which destroys nothing for such types) -/
 theorem truncate_pre_run (E : Env) (n : Nat) (g : GS) :
-    truncate_pre E n g =
-      if n ≥ g.L then (.ok (.ret 0), g)
-      else if g.isDefault then (.error .ub, g)
-      else (if E.c.needsDrop then .ok (.cont ⟨n, g.L⟩) else .ok (.ret 1),
-            { g with len := n, acts := g.acts ++ [.setLen n] }) := by
+    (n ≥ g.L → truncate_pre E n g = (.ok (.ret 0), g)) ∧
+    (¬ n ≥ g.L → g.isDefault = false →
+      (truncate_pre E n g = (.ok (.cont ⟨n, g.L⟩), { g with len := n, acts := g.acts ++ [.setLen n] }) ∨
+       (E.c.needsDrop = false ∧
+        truncate_pre E n g = (.ok (.ret 1), { g with len := n, acts := g.acts ++ [.setLen n] })))) := by
   unfold truncate_pre
   simp only [len_run, GM.bind_run, GM.ite_run, decide_eq_true_eq, GM.pure_run]
-  by_cases hge : n ≥ g.L
-  · rw [if_pos hge, if_pos hge]
-  · rw [if_neg hge, if_neg hge]
-    cases hd : g.isDefault with
-    | true => simp [GM.setHdrLen, hd]
-    | false =>
-      cases hn : E.c.needsDrop <;> simp [GM.setHdrLen, hd, hn]
+  refine ⟨fun hge => by rw [if_pos hge], fun hge hd => ?_⟩
+  rw [if_neg hge]
+  cases hn : E.c.needsDrop <;> simp [GM.setHdrLen, hd, hn]
 
 /-- `truncate(n)` when no destructor panics: the vector keeps the first `n` elements; the others
     are destroyed exactly once, in order; capacity, block and allocator untouched. -/
@@ -135,10 +135,10 @@ theorem truncate_spec (X : Ctx) (hq : ∀ k, X.o.panicAt k = false) (s : St) (es
     ∃ v', Vec.truncate X n s = (.ok (), { afterDrops X s (es.drop n) with v := v' }) ∧
       Abs X v' (es.take n) ∧ v'.blk = s.v.blk ∧ v'.cap = s.v.cap ∧ v'.isDefault = s.v.isDefault := by
   have hL : (hsOf s.v s.sys.allocIdx).L = es.length := h.len_eq
-  have hrun := truncate_pre_run X.env n (hsOf s.v s.sys.allocIdx)
-  rw [hL] at hrun
+  obtain ⟨hrun0, hrun1⟩ := truncate_pre_run X.env n (hsOf s.v s.sys.allocIdx)
+  rw [hL] at hrun0 hrun1
   by_cases hge : n ≥ es.length
-  · rw [if_pos hge] at hrun
+  · have hrun := hrun0 hge
     have h1 : VM.lift X (truncate_pre X.env n) s = (.ok (.ret 0), s) := lift_read X _ s _ hrun
     refine ⟨s.v, ?_, by rw [List.take_of_length_le hge]; exact h, rfl, rfl, rfl⟩
     unfold Vec.truncate
@@ -154,22 +154,19 @@ theorem truncate_spec (X : Ctx) (hq : ∀ k, X.o.panicAt k = false) (s : St) (es
     have hal : b.lay.align = s.v.align := (make_layout_honest _ _ _ _ hl).2.1
     have habs' := h.shorten n (by omega) hd
     have hgd : (hsOf s.v s.sys.allocIdx).isDefault = false := hd
-    rw [if_neg hge, if_neg (by rw [hgd]; simp)] at hrun
     have hacts : (hsOf s.v s.sys.allocIdx).acts ++ [Action.setLen n] = [.setLen n] := rfl
-    rw [hacts] at hrun
-    have h1 := lift_len_write' X (truncate_pre X.env n) s n _ hrun
-    cases hnd : X.c.needsDrop with
-    | false =>
-      have hnd' : X.env.c.needsDrop = false := hnd
-      rw [hnd'] at h1
+    rcases hrun1 hge hgd with hrun | ⟨hnd', hrun⟩
+    case inr =>
+      have hnd : X.c.needsDrop = false := hnd'
+      rw [hacts] at hrun
+      have h1 := lift_len_write' X (truncate_pre X.env n) s n _ hrun
       refine ⟨{ s.v with len := n }, ?_, habs', rfl, rfl, rfl⟩
       unfold Vec.truncate
       simp only [VM.bind_run, h1, VM.pure_run]
       simp [afterDrops, dropEvents, hnd]
-    | true =>
-      have hnd' : X.env.c.needsDrop = true := hnd
-      rw [hnd'] at h1
-      simp only [if_true] at h1
+    case inl =>
+      rw [hacts] at hrun
+      have h1 := lift_len_write' X (truncate_pre X.env n) s n _ hrun
       -- the tail is read from the same block (the length cut does not touch the slots)
       have h2 : VM.lift X (data X.env) { s with v := { s.v with len := n } } =
           (.ok (.at (dataOff s.v.align)), { s with v := { s.v with len := n } }) :=
